@@ -38,14 +38,18 @@ import (
 
 var (
 	OxiaSlashSpanComparer = &pebble.Comparer{
-		Compare:            compare.CompareWithSlash,
-		Equal:              pebble.DefaultComparer.Equal,
-		AbbreviatedKey:     compare.AbbreviatedKeyDisableSlash,
-		FormatKey:          pebble.DefaultComparer.FormatKey,
-		FormatValue:        pebble.DefaultComparer.FormatValue,
-		Separator:          pebble.DefaultComparer.Separator,
+		Compare:        compare.CompareWithSlash,
+		Equal:          pebble.DefaultComparer.Equal,
+		AbbreviatedKey: compare.AbbreviatedKeyDisableSlash,
+		FormatKey:      pebble.DefaultComparer.FormatKey,
+		FormatValue:    pebble.DefaultComparer.FormatValue,
+		// The bytewise Separator/Successor of the default comparer shorten keys to something that is not
+		// between the two keys in slash order (e.g. "x/" for "x.y" and "x0", which sorts after both):
+		// index blocks built with them point lookups to the wrong data block. Returning the key itself
+		// is always a valid separator / successor.
+		Separator:          func(dst, a, _ []byte) []byte { return append(dst, a...) },
 		Split:              pebble.DefaultComparer.Split,
-		Successor:          pebble.DefaultComparer.Successor,
+		Successor:          func(dst, a []byte) []byte { return append(dst, a...) },
 		ImmediateSuccessor: pebble.DefaultComparer.ImmediateSuccessor,
 		Name:               "oxia-slash-spans",
 	}
